@@ -123,6 +123,9 @@ def purity_after(E, b, l, r, snaps, what):
     E.check("%s-leaves-remote-unchanged" % what, json_identical(r, sr))
 
 
+STR_ROOTS = ["", "a\n", "a\nb\n", "a\nc\n", "a\nb", "x\na\nb\n", "quite another text\n"]
+
+
 # ------------------------------------------------------------------ C05 laws
 def make_laws(root, alts, n, strat="none", leafkind="int", props=("C05",), known=()):
     """b and x of the same container type; the four laws that need two
@@ -130,6 +133,9 @@ def make_laws(root, alts, n, strat="none", leafkind="int", props=("C05",), known
     alts_ = getattr(docs, alts)
 
     def gen(E, name, k):
+        if root == "S":
+            # string documents: enumeration over a small pool (string content is never symbolic)
+            return STR_ROOTS[E.choice(name, len(STR_ROOTS))]
         if root == "L":
             return docs.pick_list(E, name, alts_, k, leafkind, n=k)
         return docs.pick_dict(E, name, alts_, ("a", "b"), leafkind)
@@ -384,6 +390,8 @@ def law_shards(tier, props, known, strats=("none",)):
                             dict(root="L", alts="ALTS_MERGE", n=(i, j), strat=s, **kw)))
         out.append(("make_laws", "laws-dict-%s" % s,
                     dict(root="D", alts="ALTS_MERGE", n=(0, 0), strat=s, **kw)))
+        out.append(("make_laws", "laws-str-%s" % s,
+                    dict(root="S", alts="ALTS_MERGE", n=(0, 0), strat=s, **kw)))
     return out
 
 
